@@ -258,18 +258,12 @@ func resolve(n *Node, avoid bool) {
 		if k.OmitStart {
 			k.effOS = canOmitStart(k, n, n.Kids, i, avoid)
 		}
-		// a wish that could not be honoured invalidates what the previous sibling assumed
-		if k.OmitStart && !k.effOS && i > 0 {
-			// thead/tbody end omission assumed nothing about OmitStart being honoured: it required !OmitStart
-		}
 	}
 	// head end omission depends on body.effOS: recompute
 	for i, k := range n.Kids {
 		if k.isElem("head") && k.OmitEnd {
 			k.effOE = canOmitEnd(k, n, n.Kids, i)
 		}
-		// html/head/body with an omitted start tag but an empty element and a present end tag are fine.
-		_ = i
 	}
 }
 
